@@ -28,59 +28,101 @@ Check (C04_reader_roundtrip :
   exists rest, msgs = frames_of outs ++ rest /\
                (c <> Identity 0 -> tail = [] -> wire' = [] -> rest = [])).
 Check (C04_sender_refuses :
-  forall (c : codec) (w : wstate) (m : list N) (script : list wev) (sent0 : list N),
+  forall (c : codec) (w : wstate) (m : list N) (script : list wev) (sent0 : list N) r np w' sent' script',
   fitsb c m = false ->
-  start_send c w m = (WDenied, w) /\ send_framed c script m sent0 = (WDenied, 0, sent0, script)).
+  start_send c w m = (WDenied, w) /\
+  (send_framed c script w m sent0 = (r, np, w', sent', script') -> pbytes w = lenN (qbytes w) ->
+   r <> WOk /\ sent' ++ qbytes w' = sent0 ++ qbytes w /\
+   (queue_nonempty w = false -> r = WDenied /\ sent' = sent0 /\ script' = script /\ w' = w))).
 Check (C04_flush_complete :
   forall (script : list wev) (w : wstate) (sent0 : list N) r w' sent' script',
   flush script w sent0 = (r, w', sent', script') ->
   pbytes w = lenN (qbytes w) ->
   (exists d, sent' = sent0 ++ d) /\
-  (r <> WIo -> pbytes w' = lenN (qbytes w') /\ sent' ++ qbytes w' = sent0 ++ qbytes w) /\
+  pbytes w' = lenN (qbytes w') /\ sent' ++ qbytes w' = sent0 ++ qbytes w /\
   (r = WOk -> frames w' = [] /\ curf w' = None /\ pbytes w' = 0)).
-Check (C04_sink_stream :
+Check (C04_mixed_paths_in_order :
   forall (bp : N) (c : codec) (script : list wev) (ops : list op) rs s',
-  forallb sink_op ops = true ->
   run_ops bp c (init_sys script) ops = (rs, s') ->
-  Forall (fun r => fst r <> WIo) rs ->
+  Forall2 good ops rs ->
   pbytes (ws s') = lenN (qbytes (ws s')) /\
   sent s' ++ qbytes (ws s') = wire_of c (accepted c ops)).
-Check (C04_sink_flush_complete :
+Check (C04_hist_flush_complete :
   forall (bp : N) (c : codec) (script : list wev) (ops : list op) rs r s',
   run_ops bp c (init_sys script) (ops ++ [OFlush]) = (rs ++ [r], s') ->
-  length rs = length ops ->
-  forallb sink_op ops = true -> Forall (fun x => fst x <> WIo) rs -> fst r = WOk ->
+  Forall2 good ops rs -> fst r = WOk ->
   sent s' = wire_of c (accepted c ops) /\
   frames (ws s') = [] /\ curf (ws s') = None /\ pbytes (ws s') = 0).
 Check (C04_send_framed_complete :
-  forall (c : codec) (script : list wev) (m : list N) (sent0 : list N) r np sent' script',
-  send_framed c script m sent0 = (r, np, sent', script') ->
-  (fitsb c m = false -> r = WDenied /\ sent' = sent0 /\ script' = script) /\
-  (fitsb c m = true ->
-     r <> WDenied /\ exists d e, sent' = sent0 ++ d /\ frame c m = d ++ e /\ (r = WOk -> e = []))).
+  forall (c : codec) (script : list wev) (w : wstate) (m : list N) (sent0 : list N) r np w' sent' script',
+  send_framed c script w m sent0 = (r, np, w', sent', script') ->
+  pbytes w = lenN (qbytes w) ->
+  pbytes w' = lenN (qbytes w') /\
+  (exists d e, sent' ++ qbytes w' = sent0 ++ qbytes w ++ d /\ frame c m = d ++ e /\
+               (r = WOk -> e = [] /\ qbytes w' = []) /\ (fitsb c m = false -> d = [])) /\
+  (r = WOk -> fitsb c m = true) /\ (r = WDenied -> fitsb c m = false)).
+Check (C04_close_sends_nothing :
+  forall (script : list wev) (w : wstate) (sent0 : list N),
+  (forall r w' sent' script' sh,
+     poll_close script w sent0 = (r, w', sent', script', sh) ->
+     w' = w /\ sent' = sent0 /\ (r = WOk <-> sh = true)) /\
+  (forall r np w' sent' script' sh,
+     close_all script w sent0 = (r, np, w', sent', script', sh) ->
+     w' = w /\ sent' = sent0 /\ (r = WOk -> Forall clean_ev script -> sh = true))).
+Check (C04_close_after_flush_complete :
+  forall (bp : N) (c : codec) (script : list wev) (ops : list op) rs rf rc s',
+  run_ops bp c (init_sys script) (ops ++ [OFlush; OClose]) = (rs ++ [rf; rc], s') ->
+  Forall2 good ops rs -> fst rf = WOk -> fst rc = WOk ->
+  sent s' = wire_of c (accepted c ops) /\ qbytes (ws s') = [] /\ shut s' = true).
+Check (C04_close_all_after_flush_complete :
+  forall (bp : N) (c : codec) (script : list wev) (ops : list op) rs rf s1 np w' sent' script' sh,
+  run_ops bp c (init_sys script) (ops ++ [OFlush]) = (rs ++ [rf], s1) ->
+  Forall2 good ops rs -> fst rf = WOk ->
+  close_all (wscript s1) (ws s1) (sent s1) = (WOk, np, w', sent', script', sh) ->
+  Forall clean_ev (wscript s1) ->
+  sent' = wire_of c (accepted c ops) /\ qbytes w' = [] /\ sh = true).
 Check (C04_backpressure :
   forall (bp : N) (script : list wev) (w : wstate) (sent0 : list N) w' sent' script',
   0 < bp -> pbytes w = lenN (qbytes w) ->
   poll_ready bp script w sent0 = (WOk, w', sent', script') -> pbytes w' < bp).
-Check (C04_roundtrip_sink :
+Check (C04_roundtrip :
   forall (bp : N) (c : codec) (wscript : list wev) (ops : list op) rs s'
          (rscript : list rdev) (polls : nat) outs st' wire' script',
-  forallb sink_op ops = true -> Forall small_op ops ->
+  Forall small_op ops ->
   run_ops bp c (init_sys wscript) ops = (rs, s') ->
-  Forall (fun r => fst r <> WIo) rs ->
+  Forall2 good ops rs ->
   run_reader polls c (init_r c) (sent s') rscript = (outs, st', wire', script') ->
   ~ In RPanic outs /\ ~ In RFail outs /\
   exists rest, accepted c ops = frames_of outs ++ rest /\
                (c <> Identity 0 -> qbytes (ws s') = [] -> wire' = [] -> rest = [])).
-Check (C04_roundtrip_framed :
-  forall (bp : N) (c : codec) (wscript : list wev) (ops : list op) rs s'
-         (rscript : list rdev) (polls : nat) outs st' wire' script',
-  forallb framed_op ops = true -> Forall small_op ops ->
-  run_ops bp c (init_sys wscript) ops = (rs, s') ->
-  Forall (fun r => fst r = WOk \/ fst r = WDenied) rs ->
-  run_reader polls c (init_r c) (sent s') rscript = (outs, st', wire', script') ->
-  ~ In RPanic outs /\ ~ In RFail outs /\
-  exists rest, accepted c ops = frames_of outs ++ rest /\
-               (c <> Identity 0 -> wire' = [] -> rest = [])).
+Check (C04_write_error_reported :
+  forall (script : list wev) (w : wstate) (sent0 : list N) r w' sent' script',
+  flush script w sent0 = (r, w', sent', script') -> r <> WIo ->
+  exists pre, script = pre ++ script' /\ Forall (fun e => e <> WErr) pre).
+Check (C04_send_framed_error_reported :
+  forall (ident : bool) (script : list wev) (bufs : list (list N)) (sent0 : list N) np r np' sent' script',
+  sf_run ident script bufs sent0 np = (r, np', sent', script') -> r = WOk \/ r = WPend ->
+  exists pre, script = pre ++ script' /\ Forall (fun e => e <> WErr) pre).
+Check (C04_pending_has_waker_write :
+  forall (script : list wev) (w : wstate) (sent0 : list N) w' sent' script',
+  flush script w sent0 = (WPend, w', sent', script') ->
+  (exists pre, script = pre ++ WPending :: script') \/ script' = []).
+Check (C04_pending_has_waker_read :
+  forall (c : codec) (script : list rdev) (st : rstate) (wire : list N) st' wire' script',
+  poll_next c st wire script = (RPend, st', wire', script') ->
+  (exists pre, script = pre ++ EvPending :: script') \/ script' = []).
+Check (C04_identity_zero :
+  forall (polls : nat) (wire : list N) (script : list rdev) outs st' wire' script',
+  run_reader polls (Identity 0) (init_r (Identity 0)) wire script = (outs, st', wire', script') ->
+  frames_of outs = [] /\ Forall (fun o => o = RPend \/ o = RClosed \/ o = RIoErr) outs /\ wire' = wire).
+Check (C04_varint_none_unbounded_alloc :
+  forall n, 0 < n -> n < USIZE_MOD ->
+  let e := varint_enc n in
+  let '(outs, st', _, _) := run_reader 1 (Varint None) (init_r (Varint None)) e (repeat (EvChunk 1) (length e)) in
+  outs = [RPend] /\ buf_len st' = n /\ filled st' = []).
+Check (C04_flush_all_fuel_adequate :
+  forall fuel fuel' (script : list wev) (w : wstate) (sent0 : list N) np,
+  (length script < fuel)%nat -> (length script < fuel')%nat ->
+  flush_all fuel script w sent0 np = flush_all fuel' script w sent0 np).
 Check (C04_varint_roundtrip :
   forall n, n < USIZE_MOD -> read_payload_size (varint_enc n) = RpsOk n (lenN (varint_enc n))).
